@@ -70,6 +70,14 @@ static bool cb_ref_event(uint64_t lp, uint64_t k, double *ts, uint32_t *type, ui
 	return true;
 }
 
+static bool cb_ref_pred_ts(uint64_t lp, double *ts)
+{
+	if(lp >= VM.n_lps || REF.lp[lp].pred_pos < 0 || (uint64_t)REF.lp[lp].pred_pos > REF.lp[lp].n)
+		return false;
+	*ts = REF.lp[lp].pred_pos == 0 ? -1.0 : REF.lp[lp].ev[REF.lp[lp].pred_pos - 1].ts;
+	return true;
+}
+
 static unsigned long long step_budget;
 #ifdef SIM_MPI
 extern unsigned long long pmpi_shim_improbe_delays(void), pmpi_shim_test_delays(void);
@@ -220,6 +228,15 @@ int main(int argc, char **argv)
 	vm_env = &vm_core_env;
 	vm_core_env.stop = stop_wrapper;
 	ref_run((uint64_t)VM.total_target * 30 + 20000, 4000, 3.0);
+	/* clustered terminations: every LP is also done at its first event at or after a common timestamp, a fraction (percent, from the
+	 * environment) of the time the count-based run needs; the reference is redone with that model */
+	const char *ec = getenv("VM_END_CLUSTER");
+	if(ec && atoi(ec) > 0 && variant < 2 && REF.all_terminate && REF.stop_ts > 0) {
+		double e = REF.stop_ts * atoi(ec) / 100.0;
+		ref_free();
+		VM.end_ts = e;
+		ref_run((uint64_t)VM.total_target * 30 + 20000, 4000, 3.0);
+	}
 	vm_describe(desc, sizeof(desc));
 	const char *wsz = getenv("OMPI_COMM_WORLD_SIZE");
 	if(wsz && (unsigned)atoi(wsz) > VM.n_lps) { /* more ranks than LPs: outside the stated domain */
@@ -253,6 +270,7 @@ int main(int argc, char **argv)
 	vh_cfg.state_digest = cb_state_digest;
 	vh_cfg.ref_event = cb_ref_event;
 	vh_cfg.payload_hash = vm_payload_hash;
+	vh_cfg.ref_pred_ts = cb_ref_pred_ts;
 
 	vm_observer = obs_ev;
 	vm_init_observer = obs_init;
